@@ -143,6 +143,26 @@ def run(ctx: Ctx, env):
                 ctx.check(wit is None, "R2.not-shadowed", key,
                           f"{other.name} is ordered before {rn} and matches a prefix of the well-formed {kind} text {wit!r}: the {kind.lower()} is cut in two",
                           gm.loc(other.func) if other.func else gm.rel, example)
+            # R1b the rule's own look-ahead must admit every character that can follow the token
+            for vd, vlook in rules[rn].variants:
+                if vlook.allowed is None:
+                    continue
+                bad = sorted(c for c in cx if c not in vlook.allowed)
+                if not bad:
+                    continue
+                w = rx.product_witness(sd, vd, lambda a, b: a and b)
+                if w is None:
+                    continue
+                ch = "<end of input>" if bad[0] == rx.END else alpha.rep[bad[0]]
+                for c in bad:
+                    if c != rx.END and any(m in "\t\n\r" for m in alpha.members[c]):
+                        ch = next(m for m in alpha.members[c] if m in "\t\n\r")
+                        break
+                txt = alpha.text(w)
+                ctx.fail("R1.follow-context-admitted", f"{rn}|{kind}", f"{rn} requires a look-ahead that rejects {ch!r}, which the grammar allows right after a "
+                         f"{kind.lower()}: {txt + (ch if ch != '<end of input>' else '')!r} is no longer recognised as {kind}", gm.loc(g.rule(rn).func) if g.rule(rn).func else gm.rel,
+                         f"x eq {txt}{ch if ch != '<end of input>' else ''}or y eq 1")
+                break
             # R3a no absorption of the context character
             wit = _absorbs(sd, cx, rules[rn], alpha)
             ctx.check(wit is None, "R3.maximal-munch", f"{rn}|{kind}|context", f"{rn} also matches {wit!r}: it swallows the character that follows the {kind.lower()}",
